@@ -14,7 +14,8 @@ RULE_TEXT = ("The implementation is matched clause by clause against the abstrac
              "(number, text) or (0, \"\"); COUNt? answers error_count; push/pop have no other caller; C09-T number() "
              "and the text table cover every variant, numbers agree with the SCPI-1999 table, -350/-113 texts as stated."
              " C09-D: on every witness interface with ErrorCommands each spelling of SYSTem:ERRor[:NEXT]? / :COUNt? reaches exactly system_error_next / system_error_count through the emitted trie and the generated dispatcher."
-             " C09-K: the buffer discipline of process (rules K1-K7 of C07) - one response buffer per message, nothing left over at a back-edge.")
+             " C09-K: the buffer discipline of process (rules K1-K7 of C07) - one response buffer per message, nothing left over at a back-edge."
+             " C09-C01M: Node::child returns the child whose key equals the mnemonic, independent of the order of the keys (rule C01-M).")
 
 Q = "<microscpi::error_queue::StaticErrorQueue<N> as microscpi::error_queue::ErrorQueue>::"
 DEQ = "heapless::deque::Deque::"
@@ -266,6 +267,11 @@ def run(ck):
     # every response of the error queries reaches the controller whole: one response buffer per message (K-rules of C07)
     import c07
     c07.rule_K(ck, lib, "C09-K")
+    # the error queries reach their nodes at run time whatever else is declared next to them: Node::child returns the
+    # child whose key equals the mnemonic, by a scan that does not depend on an order of the keys (rule C01-M)
+    import c01
+    with ck.under("C01-", "C09-C01"):
+        c01.rule_M(ck, lib)
 
 
 def rule_D(ck):
